@@ -429,6 +429,10 @@ func (ctx Ctx) packageMethod(f *ast.SelectorExpr,
 	//
 	// See https://github.com/mit-pdos/goose-nfsd/blob/master/util/util.go
 	if isIdent(f.X, "util") && f.Sel.Name == "DPrintf" {
+		if len(args) < 2 {
+			ctx.unsupported(call, "util.DPrintf needs a level and a format string")
+			return nil
+		}
 		return coq.NewCallExpr(coq.GallinaIdent("util.DPrintf"),
 			ctx.expr(args[0]),
 			ctx.expr(args[1]),
